@@ -69,7 +69,8 @@ func (p *IdentityProvider) logoutHandleFunc(w http.ResponseWriter, r *http.Reque
 		checkIfRequestTimeIsStillValid(
 			func() string { return logoutRequest.IssueInstant },
 			func() string { return logoutRequest.NotOnOrAfter },
-			p.TimeFormat,
+			// timestamps of a request are xs:dateTime values of the sender, the configured format is for emitted messages only
+			DefaultTimeFormat,
 		),
 		func() {
 			response.sendBackLogoutResponse(w, response.makeFailedLogoutResponse(StatusCodeRequestDenied, fmt.Errorf("failed to validate request: %w", err).Error(), p.TimeFormat))
